@@ -18,7 +18,7 @@ CHUNK = {"quick": 50, "thorough": 200}
 PROBES = ["unaligned_read_then_observe", "read_at_eof", "read_past_eof", "read0", "read_all", "seek_set", "seek_cur",
           "seek_end", "len_mod4_nonzero", "len_lt_16", "detect_marker_and_size", "detect_size_only",
           "detect_marker_only", "detect_decoy_marker", "negative_rejected", "nonce_zero_byte", "head_unaligned", "first_op_without_seek", "read_without_argument",
-          "constructed_with_default_offset", "stub_at_search_range_limit"]
+          "constructed_with_default_offset", "stub_at_search_range_limit", "second_view_on_same_file"]
 RULE = ("seeded plans: (a) direct construction over arbitrary plaintext (len 0..4100, every residue mod 4, many <16), "
         "nonce incl. zero bytes, stub 0-900 bytes, 1-12 histories of 1-24 seek/read/tell ops; (b) detection via "
         "from_file on stub|nonce|size|rolling-xor(PE image) with marker+size / size only / marker only variants, decoy "
@@ -75,8 +75,15 @@ def _gen_history(rng, plen, maxops=24):
             off = target if wh == 0 else target - pos if wh == 1 else target - plen
             ops.append(["seek", off, wh])
             pos = target
-        else:
+        elif r < 0.93:
             ops.append(["tell"])
+        else:
+            # a second view over the same underlying file object (as the extraction code creates them) is used in between:
+            # the two share one cursor
+            target = rng.choice([0, 1, 3, 4, 5, max(0, plen - 1), rng.randint(0, plen + 2)])
+            n = rng.choice([0, 1, 3, 4, 5, 8, 9, -1])
+            ops.append(["other_view", target, n])
+            pos = min(plen, target + n) if (n >= 0 and target < plen) else (plen if target < plen else target)
     return ops
 
 
@@ -149,7 +156,7 @@ def _nclass(n):
     return "n=-1" if n == -1 else "n=0" if n == 0 else "n%4==0" if n % 4 == 0 else "n%4!=0"
 
 
-def run_history(res: Result, xf, plain: bytes, ops, tag, narrow=None, initial_seek=True):
+def run_history(res: Result, xf, plain: bytes, ops, tag, narrow=None, initial_seek=True, other=None):
     """Drive one history against the byte-slice model. Returns False after the first divergence."""
     plen = len(plain)
     pos = 0
@@ -222,6 +229,28 @@ def run_history(res: Result, xf, plain: bytes, ops, tag, narrow=None, initial_se
                                 f"history {ops[:k + 1]} on plaintext of {plen} bytes: after seek({off},{wh}) tell() == {t}, "
                                 f"expected {pos}", narrow(ops[:k + 1]) if narrow else None)
                     return False
+            elif op[0] == "other_view":
+                if other is None:
+                    continue
+                res.probes["second_view_on_same_file"] += 1
+                target, n = op[1], op[2]
+                b = other()
+                b.seek(target)
+                want = plain[target:] if n == -1 else plain[target:target + n]
+                got = b.read(n)
+                res.log.log("other", tag, k, target, n, got)
+                if got != want:
+                    res.violate(("C09", "read", "data", _nclass(n), "second_view"),
+                                f"history {ops[:k + 1]}: a second view over the same file read {got[:24].hex()}.., expected {want[:24].hex()}..",
+                                narrow(ops[:k + 1]) if narrow else None)
+                    return False
+                pos = target + len(want)
+                t = xf.tell()
+                if t != pos:
+                    res.violate(("C09", "tell", "after_second_view"),
+                                f"history {ops[:k + 1]}: the views share one cursor, tell() == {t} after the other view moved it to {pos}",
+                                narrow(ops[:k + 1]) if narrow else None)
+                    return False
             else:
                 t = xf.tell()
                 res.log.log("tell", tag, k, t)
@@ -289,7 +318,8 @@ def execute(plan: dict) -> Result:
                             "B": plan.get("B", 8192), "histories": [ops_prefix], "property": ID,
                             "format": plan.get("format"), "run_seed": plan.get("run_seed"),
                             "run_index": plan.get("run_index"), "population": plan.get("population")}
-                run_history(res, xf, plain, ops, hi, narrow, initial_seek=plan.get("initial_seek", True) if mode == "direct" else hi % 2 == 0)
+                run_history(res, xf, plain, ops, hi, narrow, initial_seek=plan.get("initial_seek", True) if mode == "direct" else hi % 2 == 0,
+                            other=lambda fh=fh, no=no: XorEncodedFile(fh, nonce_offset=no))
         elif mode == "detect":
             plain = _pe_plain(plan["pe"])
             nonce, stub = unhx(plan["nonce"]), unhx(plan["stub"])
@@ -335,7 +365,7 @@ def execute(plan: dict) -> Result:
             for hi, ops in enumerate(plan["histories"]):
                 ops = [op for op in ops]
                 if _valid(ops, len(plain)):
-                    run_history(res, xf, plain, ops, hi)
+                    run_history(res, xf, plain, ops, hi, other=lambda fh=fh, no=no: XorEncodedFile(fh, nonce_offset=no))
         elif mode == "negative":
             kind, size, seed = plan["kind"], plan["size"], plan["seed"]
             if kind == "random":
@@ -378,6 +408,9 @@ def _valid(ops, plen):
             pos = op[1] if op[2] == 0 else pos + op[1] if op[2] == 1 else plen + op[1]
             if pos < 0:
                 return False
+        elif op[0] == "other_view":
+            n = op[2]
+            pos = op[1] + (len(range(op[1], plen)) if n < 0 else max(0, min(n, plen - op[1])))
     return True
 
 
